@@ -130,7 +130,7 @@ _VAL_BY_MODE = [_VALS, _VALS + [NAN] * 10, _VALS + [NAN] * 10, _VALS + [NAN] * 5
 
 # All strategies are static (building strategies per case costs more than running the body); a case is
 # drawn as small integer codes and decoded into explicit coordinates by _decode_* below.
-_CFG = st.tuples(st.sampled_from(RES), st.sampled_from([None] + RES), st.sampled_from(MARGINS),
+_CFG = st.tuples(st.sampled_from(RES), st.sampled_from([None] * 4 + RES), st.sampled_from(MARGINS),
                  st.integers(0, 6), st.sampled_from(EXT_FRAC), st.integers(0, 6), st.sampled_from(EXT_FRAC),
                  st.sampled_from(ORIGINS), st.sampled_from(ORIGINS))
 _COORD = st.one_of(st.integers(0, 383), st.floats(0, 1))        # coded lattice position | fraction of the extent
